@@ -4,6 +4,7 @@ import (
 	"go/ast"
 	"go/token"
 	"go/types"
+	"sort"
 
 	"verif/internal/core"
 	"verif/internal/flow"
@@ -51,6 +52,9 @@ func c19isRunLike(g *flow.Func, fd *ast.FuncDecl) bool {
 			s++
 		case c19isBool(v.Type()):
 			b++
+		case c19targetFields(v.Type()) != nil:
+			s++
+			b++
 		default:
 			if sig, ok := v.Type().Underlying().(*types.Signature); ok && sig.Params().Len() == 1 && sig.Results().Len() == 0 {
 				if _, ok := sig.Params().At(0).Type().Underlying().(*types.Map); ok {
@@ -60,6 +64,31 @@ func c19isRunLike(g *flow.Func, fd *ast.FuncDecl) bool {
 		}
 	}
 	return s == 1 && b == 1 && fn == 1
+}
+
+// c19targetFields: a struct (or pointer to struct) with exactly one string and one bool field —
+// a parameter object for (key, prefix); returns [key field, prefix field].
+func c19targetFields(t types.Type) []*types.Var {
+	if p, ok := t.Underlying().(*types.Pointer); ok {
+		t = p.Elem()
+	}
+	st, ok := t.Underlying().(*types.Struct)
+	if !ok {
+		return nil
+	}
+	var k, b []*types.Var
+	for i := 0; i < st.NumFields(); i++ {
+		switch {
+		case c19isString(st.Field(i).Type()):
+			k = append(k, st.Field(i))
+		case c19isBool(st.Field(i).Type()):
+			b = append(b, st.Field(i))
+		}
+	}
+	if len(k) != 1 || len(b) != 1 {
+		return nil
+	}
+	return []*types.Var{k[0], b[0]}
 }
 
 func c19Run(c *core.Ctx) *c19run {
@@ -82,6 +111,10 @@ func c19Run(c *core.Ctx) *c19run {
 			r.keyObj = v
 		case c19isBool(v.Type()) && r.prefObj == nil:
 			r.prefObj = v
+		case c19targetFields(v.Type()) != nil && r.targetObj == nil && r.keyObj == nil && r.prefObj == nil:
+			// (key, prefix) travel as one parameter object: its fields play the two roles
+			tf := c19targetFields(v.Type())
+			r.targetObj, r.keyObj, r.prefObj = v, tf[0], tf[1]
 		default:
 			if _, ok := v.Type().Underlying().(*types.Signature); ok && r.sendObj == nil {
 				r.sendObj = v
@@ -251,43 +284,71 @@ func c19Run(c *core.Ctx) *c19run {
 		}
 		return true
 	})
+	// candidates: closures of run bound to a local, and the same-package functions below run; a
+	// candidate below which the callback is called is a unit unless it is itself code of another
+	// such candidate (a helper of the unit). Being invoked from run's own body is not required:
+	// the closure may only be handed to the function that holds the loop.
 	inUnit := map[*ast.CallExpr]bool{}
-	seenUnit := map[types.Object]bool{}
-	c19inspect(f.Body, func(n ast.Node) bool {
-		call, ok := n.(*ast.CallExpr)
-		if !ok {
-			return true
-		}
-		var u *c19unit
-		if o := c19obj(f, call.Fun); o != nil && litOf[o] != nil {
-			lit := litOf[o]
-			u = &c19unit{lit: lit, f: f.Lit(lit), body: lit, v: o, name: r.cons + "$" + o.Name()}
-		} else if fo, ok := f.Callee(call).(*types.Func); ok && fo.Pkg() == f.Pkg.Types {
-			if hfd := declOf(f.Pkg, fo); hfd != nil && hfd != fd {
-				u = &c19unit{decl: hfd, f: flow.NewFunc(f.Pkg, hfd), body: hfd.Body, v: f.Info.Defs[hfd.Name], name: declName(f.Pkg, hfd)}
-			}
-		}
-		if u == nil || seenUnit[u.v] {
-			return true
-		}
-		seenUnit[u.v] = true
+	type cand struct {
+		u      *c19unit
+		bodies map[*ast.BlockStmt]bool
+		sends  []*ast.CallExpr
+	}
+	var cands []*cand
+	addCand := func(u *c19unit) {
+		cd := &cand{u: u, bodies: map[*ast.BlockStmt]bool{}}
 		for i, g := range reach(u.f, 3) {
 			var root ast.Node = g.Body
 			if i == 0 {
 				root = u.body
 			}
+			cd.bodies[g.Body] = true
 			for _, s := range sends {
-				if contains(root, s.call) && !inUnit[s.call] {
-					inUnit[s.call] = true
-					u.sends = append(u.sends, s.call)
+				if contains(root, s.call) {
+					cd.sends = append(cd.sends, s.call)
 				}
 			}
 		}
-		if len(u.sends) > 0 {
-			r.units = append(r.units, u)
+		if len(cd.sends) > 0 {
+			cands = append(cands, cd)
 		}
-		return true
-	})
+	}
+	var litVars []types.Object
+	for o := range litOf {
+		litVars = append(litVars, o)
+	}
+	sort.Slice(litVars, func(i, j int) bool { return litVars[i].Pos() < litVars[j].Pos() })
+	for _, o := range litVars {
+		lit := litOf[o]
+		addCand(&c19unit{lit: lit, f: f.Lit(lit), body: lit, v: o, name: r.cons + "$" + o.Name()})
+	}
+	for _, g := range r.funcs[1:] {
+		hfd, ok := g.Node.(*ast.FuncDecl)
+		if !ok {
+			continue
+		}
+		addCand(&c19unit{decl: hfd, f: g, body: hfd.Body, v: g.Info.Defs[hfd.Name], name: declName(g.Pkg, hfd)})
+	}
+	for _, cd := range cands {
+		nested := false
+		for _, other := range cands {
+			if other != cd && other.bodies[cd.u.f.Body] && !cd.bodies[other.u.f.Body] {
+				nested = true
+			}
+		}
+		if nested {
+			continue
+		}
+		for _, sc := range cd.sends {
+			if !inUnit[sc] {
+				inUnit[sc] = true
+				cd.u.sends = append(cd.u.sends, sc)
+			}
+		}
+		if len(cd.u.sends) > 0 {
+			r.units = append(r.units, cd.u)
+		}
+	}
 	for _, s := range sends {
 		if inUnit[s.call] {
 			continue
@@ -327,14 +388,48 @@ func (r *c19run) helperParam(g *flow.Func, call *ast.CallExpr, i int) *types.Var
 	return ps[i]
 }
 
-// isUnitCall: the call invokes a unit (through the closure variable or statically).
+// isUnitCall: the call invokes a unit (through the closure variable, through a parameter of a
+// helper that is bound to the closure, or statically).
 func (r *c19run) isUnitCall(f *flow.Func, call *ast.CallExpr) *c19unit {
+	if r.unitAlias == nil {
+		r.unitAlias = map[types.Object]*c19unit{}
+		for iter := 0; iter < 2; iter++ {
+			for _, g := range r.funcs {
+				for _, hc := range calls(g.Body, true) {
+					for i, a := range hc.Args {
+						o := c19obj(g, a)
+						if o == nil {
+							continue
+						}
+						var u *c19unit
+						for _, cand := range r.units {
+							if cand.v == o {
+								u = cand
+							}
+						}
+						if u == nil {
+							u = r.unitAlias[o]
+						}
+						if u == nil {
+							continue
+						}
+						if p := r.helperParam(g, hc, i); p != nil {
+							r.unitAlias[p] = u
+						}
+					}
+				}
+			}
+		}
+	}
 	o := c19obj(f, call.Fun)
 	callee := f.Callee(call)
 	for _, u := range r.units {
 		if (o != nil && o == u.v) || (callee != nil && callee == u.v) {
 			return u
 		}
+	}
+	if o != nil {
+		return r.unitAlias[o]
 	}
 	return nil
 }
